@@ -53,7 +53,8 @@ Definition has_tie (cs : case) : bool :=
 
 (* ---- the monitor state --------------------------------------------------- *)
 
-Record mcall := mkmcall { mc_key : nat; mc_step : nat; mc_done : bool }.
+Record mcall := mkmcall { mc_key : nat; mc_step : nat; mc_done : bool;
+                          mc_arg : nat; mc_ko : option nat; mc_more : nat  (* further calls the task makes *) }.
 Record mitem := mkmitem { mi_key : nat; mi_arg : nat; mi_t : N; mi_max : nat }.
 Record mbatch := mkmbatch { mb_id : nat; mb_unans : list nat; mb_step : nat }.
 Inductive entry := EPending (st : nat) | EDone (t : N) (o : outcome).
@@ -80,24 +81,42 @@ Definition spec_lookup (c : cfg) (now : N) (es : list (nat * entry)) (k : nat) :
   | Some (EDone t o) => if (now <? t + c_rt c)%N then SDone o else SFree
   end.
 
-Definition calls_of (e : event) : list (nat * option nat) :=
-  match e with Call a k => [(a, k)] | Burst l => l | _ => [] end.
+Definition calls_of (e : event) : list (nat * option nat * nat) :=
+  match e with
+  | Call a k => [(a, k, 0)]
+  | Chain a k m => [(a, k, m)]
+  | Burst l => map (fun p => (fst p, snd p, 0)) l
+  | _ => []
+  end.
+
+(* one task making m+1 calls: register a call; if the specification says it is
+   answered at once (inside the window of a finished request) the next call of
+   the task follows immediately *)
+Fixpoint reg_chain (c : cfg) (now : N) (mx st : nat) (a : nat) (ko : option nat) (m : nat)
+         (calls : list mcall) (es : list (nat * entry)) (ex : list mitem) (imm : list (nat * outcome))
+  : list mcall * list (nat * entry) * list mitem * list (nat * outcome) :=
+  let k := key_of a ko in
+  let cid := length calls in
+  let calls' := calls ++ [mkmcall k st false a ko m] in
+  match spec_lookup c now es k with
+  | SFree => (calls', (k, EPending st) :: es, ex ++ [mkmitem k a now mx], imm)
+  | SPend => (calls', es, ex, imm)
+  | SDone o =>
+      match m with
+      | 0 => (calls', es, ex, imm ++ [(cid, o)])
+      | S m' => reg_chain c now mx st a ko m' calls' es ex (imm ++ [(cid, o)])
+      end
+  end.
 
 (* register the calls of this step: (calls, entries, expect, immediate answers expected) *)
-Fixpoint reg_calls (c : cfg) (now : N) (mx st : nat) (l : list (nat * option nat))
+Fixpoint reg_calls (c : cfg) (now : N) (mx st : nat) (l : list (nat * option nat * nat))
          (calls : list mcall) (es : list (nat * entry)) (ex : list mitem) (imm : list (nat * outcome))
   : list mcall * list (nat * entry) * list mitem * list (nat * outcome) :=
   match l with
   | [] => (calls, es, ex, imm)
-  | (a, ko) :: r =>
-      let k := key_of a ko in
-      let cid := length calls in
-      let calls' := calls ++ [mkmcall k st false] in
-      match spec_lookup c now es k with
-      | SFree => reg_calls c now mx st r calls' ((k, EPending st) :: es) (ex ++ [mkmitem k a now mx]) imm
-      | SPend => reg_calls c now mx st r calls' es ex imm
-      | SDone o => reg_calls c now mx st r calls' es ex (imm ++ [(cid, o)])
-      end
+  | (a, ko, m) :: r =>
+      let '(calls', es', ex', imm') := reg_chain c now mx st a ko m calls es ex imm in
+      reg_calls c now mx st r calls' es' ex' imm'
   end.
 
 Definition memb (k : nat) (l : list nat) : bool := existsb (Nat.eqb k) l.
@@ -152,6 +171,17 @@ Fixpoint late_expected (i : nat) (calls : list mcall) (p : list (nat * outcome))
       end
   end.
 
+(* tasks resumed in this step that call again, in the order they are resumed:
+   per produced key (the order in which the batch's futures are resolved), the
+   waiting callers of that key in caller order *)
+Definition recalls_for (calls : list mcall) (k : nat) : list (nat * option nat * nat) :=
+  flat_map (fun mc => if Nat.eqb (mc_key mc) k && negb (mc_done mc)
+                      then match mc_more mc with S m' => [(mc_arg mc, mc_ko mc, m')] | 0 => [] end
+                      else []) calls.
+
+Definition recall_list (calls : list mcall) (p : list (nat * outcome)) : list (nat * option nat * nat) :=
+  flat_map (fun ko => recalls_for calls (fst ko)) p.
+
 Definition co_eqb : nat * outcome -> nat * outcome -> bool := pair_eqb Nat.eqb outcome_eqb.
 
 Fixpoint dones_of (os : list obs) : list (nat * outcome * N) :=
@@ -171,7 +201,8 @@ Fixpoint starts_of (os : list obs) : list (nat * list (nat * nat) * N) :=
 Fixpoint mark_done (calls : list mcall) (i : nat) (ds : list nat) : list mcall :=
   match calls with
   | [] => []
-  | mc :: r => (if memb i ds then mkmcall (mc_key mc) (mc_step mc) true else mc) :: mark_done r (S i) ds
+  | mc :: r => (if memb i ds then mkmcall (mc_key mc) (mc_step mc) true (mc_arg mc) (mc_ko mc) (mc_more mc) else mc)
+               :: mark_done r (S i) ds
   end.
 
 (* C04 on an answer given in the call's own step: it must be the latest outcome
@@ -240,13 +271,8 @@ Definition is_cancel (e : event) : option nat := match e with Cancel c => Some c
 Definition mon_step (c : cfg) (m : mst) (e : event) (os : list obs) : mst :=
   let now := match e with Advance dt => (m_now m + dt)%N | _ => m_now m end in
   let mx := match e with SetMax n => n | _ => m_maxb m end in
-  let idle := match e with
-              | Advance dt => (m_idle m + dt)%N
-              | Call _ _ => 0%N
-              | Burst (_ :: _) => 0%N
-              | _ => m_idle m end in
   let first_new := length (m_calls m) in
-  let '(calls1, es1, ex1, imm) :=
+  let '(calls1, es1, ex1, imm1) :=
     reg_calls c now mx (m_step m) (calls_of e) (m_calls m) (m_entries m) (m_expect m) [] in
   let live0 := length (m_live m) in
   let '(bstep, produced, live1, freed) :=
@@ -257,6 +283,16 @@ Definition mon_step (c : cfg) (m : mst) (e : event) (os : list obs) : mst :=
   let ok11_prod := prod_ok es1 bstep produced in
   let es2 := set_done now es1 produced in
   let last2 := fold_left (fun l ko => ko :: l) produced (m_last m) in
+  (* the answered tasks that call again do so now, against the updated windows *)
+  let recalls := recall_list (m_calls m) produced in
+  let '(calls3, es3, ex3, imm) := reg_calls c now mx (m_step m) recalls calls1 es2 ex1 imm1 in
+  let idle := match e with
+              | Advance dt => (m_idle m + dt)%N
+              | Call _ _ => 0%N
+              | Chain _ _ _ => 0%N
+              | Burst (_ :: _) => 0%N
+              | _ => match recalls with [] => m_idle m | _ => 0%N end
+              end in
   (* expected completions of callers that were already waiting *)
   let late_exp :=
     match is_cancel e with
@@ -271,13 +307,13 @@ Definition mon_step (c : cfg) (m : mst) (e : event) (os : list obs) : mst :=
   let times_ok := forallb (fun d => N.eqb (snd d) now) ds in
   let ok04 :=
     list_eqb co_eqb (map fst late_obs) late_exp
-    && forallb (imm_ok04 calls1 (m_last m)) (map fst imm_obs)
+    && forallb (imm_ok04 calls3 last2) (map fst imm_obs)
     && nodup_nat (map (fun d => fst (fst d)) ds)
     && times_ok
     && negb (existsb is_died os) in
   let ok11 := ok11_prod && list_eqb co_eqb (map fst imm_obs) imm in
-  let calls2 := mark_done calls1 0 (map (fun d => fst (fst d)) ds) in
-  let m1 := mkm now mx (m_step m) calls2 live1 es2 last2 ex1 (m_prev m) idle
+  let calls4 := mark_done calls3 0 (map (fun d => fst (fst d)) ds) in
+  let m1 := mkm now mx (m_step m) calls4 live1 es3 last2 ex3 (m_prev m) idle
                 (m_bad04 m || negb ok04) (m_bad10 m) (m_bad11 m || negb ok11) in
   let m2 := fold_left (fun mm st => check_start c mm live0 freed st) (starts_of os) m1 in
   mkm (m_now m2) (m_maxb m2) (S (m_step m2)) (m_calls m2) (m_live m2) (m_entries m2) (m_last m2)
